@@ -62,7 +62,8 @@ fn decode_inner(buf: &mut BytesMut) -> Result<Option<(RequestId, (Tag, Vec<Contr
     buf.advance(buf.len() - i.len());
     let tag = tag.clone();
     let mut tags = match tag
-        .match_id(Types::Sequence as u64)
+        .match_class(TagClass::Universal)
+        .and_then(|t| t.match_id(Types::Sequence as u64))
         .and_then(|t| t.expect_constructed())
     {
         Some(tags) => tags,
@@ -120,7 +121,7 @@ fn decode_inner(buf: &mut BytesMut) -> Result<Option<(RequestId, (Tag, Vec<Contr
     {
         // MessageID ::= INTEGER (0 .. maxInt), maxInt = 2^31 - 1. Anything else must not be
         // folded into that range, where it could pass for the ID of a pending operation.
-        Some(id) if id.len() <= 8 && id.first().map_or(true, |b| b & 0x80 == 0) => {
+        Some(id) if !id.is_empty() && id.len() <= 8 && id[0] & 0x80 == 0 => {
             match parse_uint(id.as_slice()) {
                 Ok((_, id)) if id <= i32::MAX as u64 => id as i32,
                 _ => return Err(decoding_error),
@@ -129,6 +130,10 @@ fn decode_inner(buf: &mut BytesMut) -> Result<Option<(RequestId, (Tag, Vec<Contr
         Some(_) => return Err(decoding_error),
         None => return Err(decoding_error),
     };
+    // MessageID is the first element of the envelope.
+    if !tags.is_empty() {
+        return Err(decoding_error);
+    }
     Ok(Some((msgid, (Tag::StructureTag(protoop), controls))))
 }
 
